@@ -2252,3 +2252,299 @@ Proof.
   - unfold new_engine. cbn [e_v v_ca]. apply fresh_cache_ok.
   - exists new, tr. unfold new_engine in L, T. cbn [e_v v_log v_st] in L, T. rewrite fresh_state_pos in T. auto.
 Qed.
+
+(* ================================================================================== *)
+(* Follow-up 1 — whole histories in persisted operation                                 *)
+(* ================================================================================== *)
+
+Lemma eng_flush_noexec fuel rs c e : e_execd e = false -> eng_flush fuel rs c e = (e, [], FErr EFlushNoExec).
+Proof. intros H. unfold eng_flush. rewrite H. reflexivity. Qed.
+
+(* a new engine object (not initialised, nothing executed), no entry function: Init either
+   initialises it, or gives up without having logged anything and without marking it executed *)
+Lemma eng_init_fresh fuel rs c e input e' cont s :
+  c_first c = None -> e_execd e = false -> e_initd e = false ->
+  eng_init fuel rs c e input = (e', cont, s) ->
+  e_initd e' = true
+  \/ (v_log (e_v e') = v_log (e_v e) /\ e_execd e' = false /\ e_initd e' = false /\ (s <> SOk \/ cont = false)).
+Proof.
+  intros Hf Hx Hi H. unfold eng_init in H. rewrite Hx in H. cbn [e_v e_initd e_exit e_exiting e_execd] in H. rewrite Hi in H.
+  destruct (set_input (v_st (e_v e)) (Some input)) as [st1|er|n];
+    try (inversion H; subst; right; cbn [e_v e_execd e_initd]; split; [reflexivity|split; [reflexivity|split; [reflexivity|left; discriminate]]]).
+  rewrite (run_first_none _ _ _ _ Hf) in H. cbn [negb] in H.
+  set (v3 := vset_st (e_v e) st1) in *.
+  set (e3 := eset_v (mkEng (e_v e) false [] false false) v3) in *.
+  match type of H with
+  | match ?X with _ => _ end = _ =>
+    assert (Hun : exists e4 s4, X = (e4, s4) /\ v_log (e_v e4) = v_log (e_v e) /\ e_execd e4 = false /\ e_initd e4 = false)
+  end.
+  { assert (Hsame : exists e4 s4, (e3, SOk) = (e4, s4) /\ v_log (e_v e4) = v_log (e_v e) /\ e_execd e4 = false /\ e_initd e4 = false).
+    { exists e3, SOk. repeat split. }
+    change (e_v e3) with v3.
+    destruct (s_code (v_st v3)); [|exact Hsame]. destruct (s_path (v_st v3)); [exact Hsame|].
+    destruct (getf (v_st v3) FLAG_TERMINATE); [exact Hsame|].
+    destruct (eng_reset_inner v3) as [v4 s4] eqn:Hre.
+    destruct (eng_reset_inner_spec _ _ _ Hre) as (_ & L & _).
+    exists (eset_v e3 v4), s4. split; [reflexivity|]. split; [exact L|]. split; reflexivity. }
+  destruct Hun as (e4 & s4 & Hu & L4 & X4 & I4). rewrite Hu in H.
+  destruct s4; try (inversion H; subst; right; split; [exact L4|split; [exact X4|split; [exact I4|left; discriminate]]]).
+  destruct (match s_code (v_st (e_v e4)) with [] => set_code_eng e4 (encode (IMove (cfg_root c))) | _ => (e4, true) end) as [e5 cont5].
+  inversion H; subst. left. reflexivity.
+Qed.
+
+Lemma eng_exec_fresh fuel rs c e input e' cont s :
+  c_first c = None -> e_execd e = false -> e_initd e = false -> cache_ok (v_ca (e_v e)) ->
+  eng_exec fuel rs c e input = (e', cont, s) ->
+  e_initd e' = true \/ (v_log (e_v e') = v_log (e_v e) /\ e_execd e' = false /\ e_initd e' = false).
+Proof.
+  intros Hf Hx Hi Hc H. unfold eng_exec in H.
+  destruct (eng_init fuel rs c e input) as [[e1 cont0] s0] eqn:Hin.
+  destruct (eng_init_reach _ _ _ _ _ _ _ _ (or_intror Hf) Hc Hin) as (R1 & _ & _).
+  destruct (eng_init_fresh _ _ _ _ _ _ _ _ Hf Hx Hi Hin) as [I1|(L1 & X1 & I1 & B1)].
+  - (* initialised: everything downstream keeps the mark *)
+    left. destruct s0; try (inversion H; subst; exact I1).
+    destruct cont0; cbn [negb] in H; [|inversion H; subst; exact I1].
+    assert (Hrf : exists e2 s2, (if c_reset_empty c && (len input =? 0) then eng_reset_force c e1 else (e1, SOk)) = (e2, s2)
+                                /\ e_initd e2 = true /\ cache_ok (v_ca (e_v e2))).
+    { destruct (c_reset_empty c && (len input =? 0)).
+      - destruct (eng_reset_force c e1) as [e2 s2] eqn:Hr.
+        destruct (eng_reset_force_reach _ _ _ _ (pr_cache_ok _ _ R1) Hr) as (R & I & _).
+        exists e2, s2. split; [reflexivity|]. split; [congruence|apply (pr_cache_ok _ _ R)].
+      - exists e1, SOk. split; [reflexivity|]. split; [exact I1|apply (pr_cache_ok _ _ R1)]. }
+    destruct Hrf as (e2 & s2 & Hr & I2 & Hc2). rewrite Hr in H.
+    destruct s2; try (inversion H; subst; exact I2).
+    destruct ((0 <? len input) && negb (valid_input_b input)); [inversion H; subst; exact I2|].
+    destruct (set_input (v_st (e_v e2)) (Some input)) as [st'|er|n] eqn:Hsi; try (inversion H; subst; exact I2).
+    assert (Hst : st' = set_input_raw (v_st (e_v e2)) (Some input)).
+    { unfold set_input in Hsi. destruct (INPUT_LIMIT <? len input); inversion Hsi; reflexivity. }
+    set (e3 := eset_v e2 (vset_st (e_v e2) st')) in *.
+    assert (Q3 : quiet (e_v e2) (e_v e3)) by (apply quiet_set_st; rewrite Hst; reflexivity).
+    destruct (eng_exec_inner_follows fuel rs c e3 e' cont s (quiet_cache_ok _ _ Q3 Hc2) H) as (_ & I4 & _).
+    rewrite I4. exact I2.
+  - right. destruct s0; try (inversion H; subst; auto).
+    destruct cont0; cbn [negb] in H; [|inversion H; subst; auto].
+    destruct B1 as [B1|B1]; [contradiction B1; reflexivity|discriminate].
+Qed.
+
+Definition resp_fatal (r : response) : bool :=
+  match r_exec r with SPanic _ | SFuel => true | _ => fstat_fatal (r_flush r) end.
+
+(* one persisted request that neither panicked nor ran out of fuel: the stored record afterwards is
+   reached from the record before by a trace whose moves are exactly the moves logged meanwhile *)
+Lemma request_persisted_trace fuel rs c p input p' resp :
+  c_first c = None -> cache_ok (snd (start_snap c p)) ->
+  request_persisted fuel rs c p input = (p', resp) -> resp_fatal resp = false ->
+  exists st' ca', pw_store p' = Some (st', ca') /\ cache_ok ca'
+    /\ exists new tr, pw_log p' = new ++ pw_log p /\ trace_moves tr = log_moves new
+         /\ pos_trace (pos_of (fst (start_snap c p))) tr = Some (pos_of st').
+Proof.
+  intros Hfirst Hc0 H Hnf. unfold request_persisted in H.
+  destruct (new_engine_facts c p) as (Est & Eca & Elog & Einit & Eexecd & Eexiting).
+  set (e := new_engine c (pw_store p) (pw_w p) (pw_log p)) in *.
+  assert (Hc : cache_ok (v_ca (e_v e))) by (rewrite Eca; exact Hc0).
+  set (store0 := match pw_store p with Some s => Some s | None => Some (snap_of (v_st (e_v e)) (v_ca (e_v e))) end) in *.
+  assert (Hs0 : exists st0 ca0, store0 = Some (st0, ca0) /\ pos_of st0 = pos_of (fst (start_snap c p))
+                                /\ ca0 = snd (start_snap c p)).
+  { subst store0. rewrite Est, Eca. unfold start_snap. destruct (pw_store p) as [[s ca]|].
+    - exists s, ca. auto.
+    - eexists. eexists. split; [reflexivity|]. split; reflexivity. }
+  destruct Hs0 as (st0 & ca0 & Hs0 & Hp0 & Hca0).
+  destruct (eng_exec fuel rs c e input) as [[e1 cont] s] eqn:He.
+  destruct (eng_exec_reach _ _ _ _ _ _ _ _ (or_intror Hfirst) Hc He) as (R1 & _ & _).
+  pose proof (pr_cache_ok _ _ R1) as Hc1.
+  pose proof (eng_exec_fresh _ _ _ _ _ _ _ _ Hfirst Eexecd Einit Hc He) as Hfresh.
+  assert (Main : forall e2 out f, eng_flush fuel rs c e1 = (e2, out, f) -> fstat_fatal f = false ->
+            (mkPw (match eng_finish e2 with Some sn => Some sn | None => store0 end)
+                  (v_w (e_v e2)) (v_log (e_v e2)) (pw_taint p || v_taint (e_v e2)), mkResp cont s out f) = (p', resp) ->
+            exists st' ca', pw_store p' = Some (st', ca') /\ cache_ok ca'
+              /\ exists new tr, pw_log p' = new ++ pw_log p /\ trace_moves tr = log_moves new
+                   /\ pos_trace (pos_of (fst (start_snap c p))) tr = Some (pos_of st')).
+  { intros e2 out f Hfl Hfat Hk.
+    destruct (eng_flush_reach _ _ _ _ _ _ _ Hc1 Hfl) as (R2 & I2 & _ & _).
+    assert (R02 : pos_reach (e_v e) (e_v e2)) by (eapply pr_trans; eassumption).
+    unfold eng_finish in Hk. destruct (e_initd e2) eqn:Hi2.
+    - inversion Hk; subst p' resp. cbn [pw_store pw_log].
+      exists (set_input_raw (v_st (e_v e2)) None), (v_ca (e_v e2)).
+      split; [reflexivity|]. split; [apply (pr_cache_ok _ _ R02)|].
+      destruct R02 as (_ & new & tr & L & M & T). rewrite Est, Elog in *. exists new, tr. auto.
+    - destruct Hfresh as [I1|(L1 & X1 & I1)]; [congruence|].
+      rewrite (eng_flush_noexec _ _ _ _ X1) in Hfl. inversion Hfl; subst e2 out f.
+      inversion Hk; subst p' resp. cbn [pw_store pw_log]. exists st0, ca0.
+      split; [exact Hs0|]. split; [rewrite Hca0; exact Hc0|].
+      exists [], []. split; [rewrite L1, Elog; reflexivity|]. split; [reflexivity|].
+      cbn [pos_trace]. rewrite Hp0. reflexivity. }
+  destruct s.
+  - destruct (eng_flush fuel rs c e1) as [[e2 out] f] eqn:Hfl.
+    assert (Hfat : fstat_fatal f = false).
+    { destruct f; try reflexivity; inversion H; subst resp; cbn [resp_fatal r_exec r_flush fstat_fatal] in Hnf; discriminate. }
+    eapply Main; [reflexivity|exact Hfat|]. destruct f; try discriminate; exact H.
+  - destruct (eng_flush fuel rs c e1) as [[e2 out] f] eqn:Hfl.
+    assert (Hfat : fstat_fatal f = false).
+    { destruct f; try reflexivity; inversion H; subst resp; cbn [resp_fatal r_exec r_flush fstat_fatal] in Hnf; discriminate. }
+    eapply Main; [reflexivity|exact Hfat|]. destruct f; try discriminate; exact H.
+  - inversion H; subst resp. cbn [resp_fatal r_exec r_flush fstat_fatal] in Hnf. discriminate.
+  - inversion H; subst resp. cbn [resp_fatal r_exec r_flush fstat_fatal] in Hnf. discriminate.
+Qed.
+
+(* an input history served by one new engine object per request; the responses are collected *)
+Fixpoint pers_history (fuel : nat) (rs : rsrc) (c : config) (p : pworld) (inputs : list bytes) : pworld * list response :=
+  match inputs with
+  | [] => (p, [])
+  | i :: r =>
+    let '(p1, resp) := request_persisted fuel rs c p i in
+    let '(p2, resps) := pers_history fuel rs c p1 r in
+    (p2, resp :: resps)
+  end.
+Definition no_fatal (resps : list response) : bool := forallb (fun r => negb (resp_fatal r)) resps.
+
+(* "the trace explains the log": the session's current record is reached from the empty position by
+   table moves and resets, the moves being exactly the logged ones, oldest first *)
+Definition explained (c : config) (p : pworld) : Prop :=
+  cache_ok (snd (start_snap c p)) /\
+  exists tr, trace_moves tr = log_moves (pw_log p)
+    /\ pos_trace ([], 0) tr = Some (pos_of (fst (start_snap c p))).
+
+Lemma explained_fresh c : explained c (mkPw None [] [] false).
+Proof.
+  split; [apply fresh_cache_ok|]. exists []. split; [reflexivity|].
+  unfold start_snap. cbn [pw_store fst pos_trace]. rewrite fresh_state_pos. reflexivity.
+Qed.
+
+Lemma pers_history_explained : forall inputs fuel rs c p p' resps,
+  c_first c = None -> explained c p ->
+  pers_history fuel rs c p inputs = (p', resps) -> no_fatal resps = true ->
+  explained c p' /\ (inputs <> [] -> exists sn, pw_store p' = Some sn).
+Proof.
+  induction inputs as [|i r IH]; intros fuel rs c p p' resps Hf He H Hn; cbn [pers_history] in H.
+  - inversion H; subst. split; [exact He|]. intros C; contradiction.
+  - destruct (request_persisted fuel rs c p i) as [p1 resp] eqn:Hr.
+    destruct (pers_history fuel rs c p1 r) as [p2 resps2] eqn:Hh. inversion H; subst p' resps.
+    unfold no_fatal in Hn. cbn [forallb] in Hn. apply andb_true_iff in Hn. destruct Hn as [Hn1 Hn2].
+    apply negb_true_iff in Hn1. destruct He as (Hc & tr & M & T).
+    destruct (request_persisted_trace _ _ _ _ _ _ _ Hf Hc Hr Hn1) as (st' & ca' & Hs & Hc' & new & tr' & L & M' & T').
+    assert (He1 : explained c p1).
+    { unfold explained, start_snap. rewrite Hs. cbn [fst snd]. split; [exact Hc'|].
+      exists (tr ++ tr'). split; [rewrite trace_moves_app, L, log_moves_app, M, M'; reflexivity|].
+      rewrite pos_trace_app, T. exact T'. }
+    destruct (IH fuel rs c p1 p2 resps2 Hf He1 Hh Hn2) as [He2 Hsome]. split; [exact He2|].
+    intros _. destruct r as [|i2 r2].
+    + cbn [pers_history] in Hh. inversion Hh; subst. eexists. exact Hs.
+    + apply Hsome. discriminate.
+Qed.
+
+Lemma pers_history_fresh_lemma : forall inputs fuel rs c p' resps,
+  c_first c = None ->
+  pers_history fuel rs c (mkPw None [] [] false) inputs = (p', resps) -> no_fatal resps = true ->
+  (inputs <> [] -> exists st' ca', pw_store p' = Some (st', ca') /\ cache_ok ca'
+     /\ exists tr, trace_moves tr = log_moves (pw_log p') /\ pos_trace ([], 0) tr = Some (pos_of st'))
+  /\ (inputs = [] -> p' = mkPw None [] [] false).
+Proof.
+  intros inputs fuel rs c p' resps Hf H Hn.
+  destruct (pers_history_explained inputs fuel rs c _ p' resps Hf (explained_fresh c) H Hn) as [(Hc & tr & M & T) Hs].
+  split.
+  - intros Hne. destruct (Hs Hne) as [[st' ca'] Hst]. unfold start_snap in Hc, T. rewrite Hst in Hc, T. cbn [fst snd] in Hc, T.
+    exists st', ca'. split; [exact Hst|]. split; [exact Hc|]. exists tr. auto.
+  - intros ->. cbn [pers_history] in H. inversion H. reflexivity.
+Qed.
+
+(* ================================================================================== *)
+(* Follow-up 2 — finding K-C03-stale-readin                                             *)
+(* ================================================================================== *)
+
+(* decidable guard: the code the session resumes with starts with an INCMP *)
+Definition starts_with_incmp (b : bytes) : bool :=
+  match decode_one b with Ok (IInCmp _ _, _) => true | _ => false end.
+
+Lemma incmp_block_starts ds l r : wf_block (ds :: l) -> starts_with_incmp (incmp_block (ds :: l) ++ r) = true.
+Proof.
+  intros Hw. inversion Hw as [|x y [H1 H2] _]; subst. rewrite incmp_block_cons. unfold starts_with_incmp.
+  rewrite instr_roundtrip_lemma by (split; assumption). reflexivity.
+Qed.
+
+(* number of INCMP instructions executed according to a log *)
+Fixpoint log_incmps (l : list ev) : nat :=
+  match l with [] => O | EvInCmp _ _ _ :: l' => S (log_incmps l') | _ :: l' => log_incmps l' end.
+Lemma block_log_incmps l : forall acc, log_incmps (block_log l acc) = (List.length l + log_incmps acc)%nat.
+Proof.
+  induction l as [|ds l IH]; intros acc; [reflexivity|]. cbn [block_log List.length]. rewrite IH. cbn [log_incmps]. lia.
+Qed.
+
+(* Full statement (FALSE, see stale_readin_refuted_lemma): on EVERY resume after HALT with input i and
+   pending code b, the session goes to the catch node with the invalid-input message only if i was
+   compared with at least one INCMP since the resume and none matched - and then the message shows
+   THAT input; code that runs out without executing an INCMP terminates the session.
+   Partial: guard = the resumed code starts with an INCMP block (starts_with_incmp), for ANY value of
+   READIN and INMATCH left by the HALT. *)
+Lemma invalid_input_is_current_partial_lemma : forall fuel rs sep lang input ds l v,
+  getf (v_st v) FLAG_TERMINATE = false -> s_input (v_st v) = Some input -> getf (v_st v) FLAG_WAIT = true ->
+  flags_ok (v_st v) ->
+  wf_block (ds :: l) -> no_match input (ds :: l) = true ->
+  where_sym (v_st v) <> [] -> where_sym (v_st v) <> catch_sym ->
+  starts_with_incmp (incmp_block (ds :: l)) = true /\
+  (out_of_fuel (run fuel rs sep lang (incmp_block (ds :: l)) v) \/
+   exists f lang1 v1, (f < fuel)%nat /\
+     run fuel rs sep lang (incmp_block (ds :: l)) v = run f rs sep lang1 move_catch_code v1
+     (* the message shows the input of THIS request *)
+     /\ p_err (v_pg v1) = Some (msg_invalid_input (Some input))
+     (* which was compared with every line of the block, and nothing moved before MOVE _catch *)
+     /\ v_log v1 = block_log (ds :: l) (v_log v)
+     /\ log_incmps (v_log v1) = (List.length (ds :: l) + log_incmps (v_log v))%nat
+     /\ pos_of (v_st v1) = pos_of (v_st v) /\ v_ca v1 = v_ca v).
+Proof.
+  intros fuel rs sep lang input ds l v Ht Hi Hw Hf Hwf Hn Hnw Hnc.
+  split; [rewrite <- (app_nil_r (incmp_block (ds :: l))); apply incmp_block_starts; exact Hwf|].
+  pose proof (no_match_goes_to_catch_lemma fuel rs sep lang input ds l v (resume_is_start _ _ Ht Hi Hw Hf) Hwf Hn) as F.
+  cbv zeta in F. destruct F as (Hp & Hc & Hl & Hrun & _).
+  destruct (Hrun Hnw Hnc) as [H|(f & Hlt & H)]; [left; exact H|]. right.
+  eexists f, _, _. split; [exact Hlt|]. split; [exact H|].
+  split; [reflexivity|]. split; [exact Hl|]. split; [cbn [v_log vset_pg]; rewrite Hl; apply block_log_incmps|].
+  split; [exact Hp|exact Hc].
+Qed.
+
+(* the witness: root = HALT; INCMP foo 1, _catch = HALT; MOVE end1, end1 = MOUT bye 0 *)
+Definition stale_app : app :=
+  mkApp [(s2b "root", encode_prog [IHalt; IInCmp (s2b "foo") (s2b "1")]);
+         (s2b "foo", encode_prog [IHalt]);
+         (s2b "end1", encode_prog [IMOut (s2b "bye") (s2b "0")]);
+         (s2b "_catch", encode_prog [IHalt; IMove (s2b "end1")])]
+        [(s2b "root", s2b "root"); (s2b "foo", s2b "foo"); (s2b "end1", s2b "end1"); (s2b "_catch", s2b "catch")] [] [].
+Fixpoint stale_long (e : engine) (inputs : list bytes) : engine * list bytes :=
+  match inputs with
+  | [] => (e, [])
+  | i :: r => let '(e1, resp) := request_long 200 (app_rsrc stale_app) ex_cfg e i in
+              let '(e2, outs) := stale_long e1 r in (e2, r_out resp :: outs)
+  end.
+(* the long-lived engine after "" and the unmatched "x": stopped at _catch's HALT, READIN still set *)
+Definition stale_engine : engine := fst (stale_long (new_engine ex_cfg None [] []) [[]; s2b "x"]).
+(* what Exec hands to Run for the next input "y": pending code and machine *)
+Definition stale_code : bytes := s_code (v_st (e_v stale_engine)).
+Definition stale_vm : vmst :=
+  vset_st (e_v stale_engine) (set_input_raw (set_code (v_st (e_v stale_engine)) []) (Some (s2b "y"))).
+
+Lemma stale_readin_refuted_lemma :
+  exists fuel rs sep lang input b v,
+    (* a resume after HALT with input "y"; READIN was left set by the previous, unmatched input "x" *)
+    getf (v_st v) FLAG_TERMINATE = false /\ s_input (v_st v) = Some input /\ getf (v_st v) FLAG_WAIT = true
+    /\ flags_ok (v_st v) /\ getf (v_st v) FLAG_READIN = true
+    /\ where_sym (v_st v) = catch_sym /\ s_path (v_st v) = [s2b "root"; s2b "_catch"]
+    (* the pending code is MOVE end1: outside the guard *)
+    /\ b = encode (IMove (s2b "end1")) /\ starts_with_incmp b = false
+    /\ (let '(v', b', st) := run fuel rs sep lang b v in
+        (* no INCMP is executed, yet "y" is reported invalid, the session does not terminate and the
+           stack has grown by two levels *)
+        st = SOk /\ log_incmps (v_log v') = log_incmps (v_log v)
+        /\ p_err (v_pg v') = Some (s2b "invalid input: 'y'")
+        /\ getf (v_st v') FLAG_TERMINATE = false /\ getf (v_st v') FLAG_READIN = true
+        /\ s_path (v_st v') = [s2b "root"; s2b "_catch"; s2b "end1"; s2b "_catch"])
+    (* the same machine with READIN clear terminates, as intended *)
+    /\ (let '(v', b', st) := run fuel rs sep lang b (vset_st v (resetf (v_st v) FLAG_READIN)) in
+        st = SOk /\ p_err (v_pg v') = None /\ getf (v_st v') FLAG_TERMINATE = true
+        /\ s_path (v_st v') = [s2b "root"; s2b "_catch"; s2b "end1"]).
+Proof.
+  exists 50%nat, (app_rsrc stale_app), [], None, (s2b "y"), stale_code, stale_vm.
+  split; [vm_compute; reflexivity|]. split; [vm_compute; reflexivity|]. split; [vm_compute; reflexivity|].
+  split; [unfold flags_ok; vm_compute; lia|]. split; [vm_compute; reflexivity|].
+  split; [vm_compute; reflexivity|]. split; [vm_compute; reflexivity|].
+  split; [vm_compute; reflexivity|]. split; [vm_compute; reflexivity|].
+  split; vm_compute; repeat split.
+Qed.
